@@ -288,6 +288,12 @@ class TextDen:
 
 
 # =========================================================================================== comparison
+def _is_observation_record(rec):
+    if "EVID" in rec:
+        return rec["EVID"] == 0
+    return not rec.get("AMT") and not rec.get("MDV")
+
+
 def _record_obs_comp(td, rec):
     """NM-TRAN: on an observation record (EVID 0; without EVID: AMT = 0 and MDV = 0) a non-zero CMT item names the
     compartment whose scaled amount is F; 0 / absent = the default observation compartment.  Dose and other-type
@@ -597,6 +603,13 @@ def _compare_dynamic(td: TextDen, ird: IRDen, records, rng, K, c, prefix="", dos
                 last_err = "reject"
                 break
             except Unbound as u:
+                if str(u) == "F" and "CMT" in rec and not _is_observation_record(rec):
+                    # pharmpy defines F per observed compartment from the CMT values of the OBSERVATION records; when
+                    # every observation names its compartment there is no default branch, and F has no value on dose /
+                    # other-type records - where no prediction is used.  Not a difference in meaning: not judged there
+                    c is not None and c.hit(prefix + "point_rejected_F_undefined_on_non_observation_record")
+                    last_err = "reject"
+                    break
                 last_err = Mismatch(f"error statements of the model read undefined symbol {u}")
                 continue
             if ird.dvid_col is not None:
